@@ -6,10 +6,11 @@
     Any = CopyRemaining), tlb/models.go (Grams, CurrencyCollection, HashUpdate).
 
     Cells are the cell trees of Spec/ReprHash.v.  A cell being read is the list
-    of its unread bits and unread references (C06).  What is NOT transcribed is
-    passed in as an [oracle]: acceptance of a dictionary root by
-    Hashmap.mapInner (C05 models it) and of a TransactionDescr cell; every
-    theorem holds for every oracle.
+    of its unread bits and unread references (C06).  Acceptance of a dictionary
+    root by Hashmap.mapInner and of a TransactionDescr cell enter as an [oracle]
+    record; every theorem holds for every oracle, and Model/MsgOracle.v gives
+    the transcription of both ([real_oracle]) that makes the decoders functions
+    of the cell tree alone.
 
     The hasher is a parameter as well: [hr] is the result of hashing the cell
     being decoded (decoder.hasher.Hash(c) or c.Hash()), [hf] hashes nested
@@ -224,12 +225,15 @@ Definition parse_message (o : oracle) (s : slc)
 
 (* tlb.Unmarshal(c, &msg): decode() refuses a library cell, then
    Message.UnmarshalTLB hashes [c] FIRST, resets the cursors and decodes *)
-Definition decode_message_gen (o : oracle) (hr : res bytes) (c : cell) : res msg :=
-  if is_library_cell c then Err ETlbMsg else
+Definition decode_message_body (o : oracle) (hr : res bytes) (c : cell) : res msg :=
   do h <- hr;
   do p <- parse_message o (open c);
   let '(i, ini, isref, body) := p in
   Ok (mkmsg i ini isref body h).
+(* no library resolver is configured (tlb.Unmarshal, tlb.NewDecoder()): decode()
+   returns "library cell decoding is not configured properly" *)
+Definition decode_message_gen (o : oracle) (hr : res bytes) (c : cell) : res msg :=
+  if is_library_cell c then Err ETlbMsg else decode_message_body o hr c.
 
 (** *** Message.Hash(normalizeExternal) *)
 (* a cell being written; every write appends bit by bit, stops at 1023 bits
@@ -304,6 +308,16 @@ Definition msg_hash (normalize : bool) (m : msg) : res bytes :=
 
 Definition decode_message (o : oracle) (c : cell) : res msg :=
   decode_message_gen o (hash_cell c) c.
+
+(* what Hash(normalize) leaves in the receiver: for an external-in message
+   Hash(true) executes m.Info.ExtInMsgInfo.Dest.AddrStd.Anycast.Exists = false
+   (through the ExtInMsgInfo pointer, so every copy of the Message value that
+   shares the pointer sees it); nothing else is written, in particular not m.hash *)
+Definition clear_info_anycast (i : info) : info :=
+  match i with IExtIn s d f => IExtIn s (clear_std_anycast d) f | _ => i end.
+Definition after_hash (normalize : bool) (m : msg) : msg :=
+  if normalize then mkmsg (clear_info_anycast (m_info m)) (m_init m) (m_body_ref m) (m_body m) (m_hash m)
+  else m.
 
 (** *** Transaction *)
 Record tx := mktx {
